@@ -55,6 +55,9 @@ type unitPlan struct {
 	FuzzTimeS      int     `json:"fuzztime_s"` // seconds
 	Weight         float64 `json:"weight"`     // cpu slots this unit occupies (default 1)
 	MaxProcs       int     `json:"gomaxprocs"` // GOMAXPROCS for the unit's process (0 = default)
+	// GoArch: build and run this unit's test binary for another architecture that executes natively here ("386":
+	// int, uint and uintptr are 32 bits wide). Files of the package select themselves with //go:build lines.
+	GoArch string `json:"goarch"`
 }
 
 type plan struct {
@@ -235,6 +238,20 @@ func main() {
 		die2("harness does not build against /repo's tree:\n%v", buildErr)
 	}
 
+	archBins := map[string]string{}
+	for _, u := range pl.Units {
+		if u.GoArch == "" || (u.ThoroughOnly && mode != "thorough") || (u.QuickOnly && mode != "quick") {
+			continue
+		}
+		if _, done := archBins[u.GoArch]; done {
+			continue
+		}
+		ab, err := buildArch(pl, work, u.GoArch)
+		if err != nil {
+			die2("harness does not build for GOARCH=%s:\n%v", u.GoArch, err)
+		}
+		archBins[u.GoArch] = ab
+	}
 	fuzzBin := ""
 	for _, u := range pl.Units {
 		if u.Fuzz != "" && !(u.ThoroughOnly && mode != "thorough") && fuzzBin == "" {
@@ -271,6 +288,9 @@ func main() {
 			if u.Fuzz != "" {
 				bin = fuzzBin
 			}
+			if u.GoArch != "" {
+				bin = archBins[u.GoArch]
+			}
 			jobs = append(jobs, &job{unit: u, shard: i, shards: n, bin: bin,
 				log: filepath.Join(work, fmt.Sprintf("%s%s.s%d.log", u.Test, u.Fuzz, i)), timeout: time.Duration(to) * time.Second})
 		}
@@ -286,6 +306,23 @@ func main() {
 
 func build(pl plan, work string, race bool) (string, error) {
 	return buildKind(pl, work, race, false)
+}
+
+func buildArch(pl plan, work, goarch string) (string, error) {
+	bin := filepath.Join(work, "test."+goarch+".bin")
+	args := []string{"test", "-c", "-tags", "verif", "-vet=off"}
+	if modfile != "" {
+		args = append(args, "-modfile="+modfile)
+	}
+	args = append(args, "-o", bin, pl.Pkg)
+	cmd := exec.Command("go", args...)
+	cmd.Dir = filepath.Join(verifRoot, "harness")
+	cmd.Env = goEnv("GOARCH="+goarch, "CGO_ENABLED=0")
+	out, err := cmd.CombinedOutput()
+	if err != nil {
+		return "", fmt.Errorf("GOARCH=%s go %s: %v\n%s", goarch, strings.Join(args, " "), err, out)
+	}
+	return bin, nil
 }
 
 func buildKind(pl plan, work string, race, fuzz bool) (string, error) {
@@ -423,6 +460,9 @@ var deathBanners = []*regexp.Regexp{
 	regexp.MustCompile(`(?m)^unexpected fault address`),
 	regexp.MustCompile(`(?m)^runtime: pointer 0x[0-9a-f]+ to unallocated span`),
 	regexp.MustCompile(`(?m)^fatal error: checkptr: `),
+	// unbounded recursion inside the library (per element / per chunk)
+	regexp.MustCompile(`(?m)^fatal error: stack overflow`),
+	regexp.MustCompile(`(?m)^runtime: goroutine stack exceeds `),
 }
 var notViolationBanners = []*regexp.Regexp{
 	regexp.MustCompile(`(?m)^fatal error: runtime: out of memory`),
@@ -837,12 +877,17 @@ func replay(prop string, pl plan, work, path string, needRace, needPlain bool) i
 	}
 	// pick the binary flavour of the unit
 	race := false
+	goarch := ""
 	for _, u := range pl.Units {
 		if testMatchesUnit(u.Test, ff.Unit) {
 			race = u.Race
+			goarch = u.GoArch
 		}
 	}
 	bin, err := build(pl, work, race)
+	if goarch != "" {
+		bin, err = buildArch(pl, work, goarch)
+	}
 	if err != nil {
 		die2("harness does not build against /repo's tree:\n%v", err)
 	}
